@@ -194,6 +194,34 @@ def codec_events(ctx):
                       secs = int((dt - datetime(1970, 1, 1, tzinfo=timezone.utc)).total_seconds())
                   ev.append({'k': 'time', 'q': octets(q), 'out': octets(out),
                              'secs': q32(secs) if 0 <= secs < 2 ** 32 else [256], 'kind': kind, 'tz': tz})
+    # the same instants handed over as datetime objects of several zones: an aware datetime denotes one instant whatever its zone
+    from datetime import timedelta as _td
+    from pgpy.packet import Packet
+    from .. import keys as _K
+    real_pub = bytes(_K.raw_key('ed25519').pubkey)
+    for t in times[:13] + times[13:13 + (6 if ctx.quick else 100)]:
+        q = t.to_bytes(4, 'big')
+        for off in (0, 330, -480, 765):
+            zone = timezone(_td(minutes=off))
+            for kind in ('pubkey', 'literal', 'sigtime'):
+                def one2():
+                    dt = datetime.fromtimestamp(t, zone)
+                    if kind == 'pubkey':
+                        o = Packet(bytearray(real_pub))
+                        o.created = dt
+                        raw = bytes(o.__bytearray__())
+                        return raw[len(o.header.__bytearray__()):][:4]       # (the header of a versioned packet includes the version octet)
+                    if kind == 'literal':
+                        o = LiteralData()
+                        o.mtime = dt
+                        raw = bytes(o.__bytearray__())
+                        return raw[len(o.header.__bytearray__()) + 2:][:4]
+                    o = CreationTime()
+                    o.created = dt
+                    return bytes(o.__bytearray__())[-4:]
+                r = call(one2)
+                ev.append({'k': 'time', 'q': octets(q), 'out': [256] if isinstance(r, Exception) else octets(r), 'secs': octets(q), 'kind': kind + ' from datetime',
+                           'tz': 'utc%+d' % off})
     if old_tz is None:
         _os.environ.pop('TZ', None)
     else:
@@ -204,6 +232,48 @@ def codec_events(ctx):
         s = String2Key()
         s.count = c
         ev.append({'k': 'count', 'c': c, 'n': s.count})
+    return ev
+
+
+def realseq_events(ctx):
+    """exports of real keys after histories that change the size of packet bodies."""
+    pgpy = import_pgpy()
+    from pgpy.constants import SymmetricKeyAlgorithm as SA, HashAlgorithm as HA, KeyFlags
+    from .. import keys as _K, keylife as _kl, build as _b
+    import warnings
+    ev = []
+    saved = _kl.fast_s2k()
+    try:
+        with warnings.catch_warnings():
+            warnings.simplefilter('ignore')
+            base = _K.new_key('ed25519', subs=[('cv25519', {KeyFlags.EncryptCommunications})])
+            tags = [t for t, b, r in _b.read_packets(bytes(base))]
+
+            def record(label, key):
+                blob = bytes(key)
+                try:
+                    k2 = pgpy.PGPKey.from_blob(blob)[0]
+                    rep = bytes(k2) == blob and len(k2.subkeys) == len(base.subkeys)
+                except Exception:
+                    rep = False
+                ev.append({'k': 'realseq', 'label': label, 'blob': octets(blob), 'tags': tags, 'reparsed': rep})
+            orders = [[SA.AES256, SA.CAST5, SA.AES128, SA.TripleDES, SA.Camellia256, SA.Blowfish], [SA.CAST5, SA.AES256, SA.CAST5], [SA.TripleDES, SA.Camellia128, SA.AES192, SA.Blowfish]]
+            for oi, order in enumerate(orders if not ctx.quick else orders[:2]):
+                k = pgpy.PGPKey.from_blob(bytes(base))[0]
+                record('unprotected', k)
+                k.protect('pw', order[0], HA.SHA256)
+                record('protected %s' % order[0].name, k)
+                for j, c in enumerate(order[1:]):
+                    try:
+                        if (oi + j) % 2:
+                            k = pgpy.PGPKey.from_blob(bytes(k))[0]          # the history continues on the re-imported key
+                        with k.unlock('pw'):
+                            k.protect('pw', c, [HA.SHA1, HA.SHA256, HA.SHA512][j % 3])
+                    except Exception:
+                        break                                                # (the export recorded before is what TLC judges)
+                    record('re-protected %s -> %s%s' % (order[j].name, c.name, ' (after export/import)' if (oi + j) % 2 else ''), k)
+    finally:
+        _kl.restore_s2k(saved)
     return ev
 
 
@@ -354,9 +424,10 @@ def run(ctx):
     # 3. codec calls
     ev += codec_events(ctx)
     ev += partial_events(ctx)
+    ev += realseq_events(ctx)
     for e in ev:
         ctx.case((e['k'], classify(e)) if e['k'] in ('hdr',) else (e['k'], str(e.get('q', e.get('n', e.get('inp', e.get('mag', e.get('c', ''))))))[:60]))
-    for k in ('hdr', 'newenc', 'newdec', 'oldenc', 'subdec', 'mpienc', 'time', 'partial'):
+    for k in ('hdr', 'newenc', 'newdec', 'oldenc', 'subdec', 'mpienc', 'time', 'partial', 'realseq'):
         s = next((e for e in ev if e['k'] == k), None)
         if s:
             ctx.sample({kk: (vv if not isinstance(vv, list) or len(vv) < 24 else vv[:24] + ['...']) for kk, vv in s.items()}, limit=10)
